@@ -194,6 +194,12 @@ def packArgs (fx : Fix) (specs : List Spec) (vals : List Val) (m0 : Mem) : Excep
   else if st.total > maxSize fx then .error .tooBig
   else .ok st.payload
 
+/-- what save_argument / save_retval record: only the total is checked (`size == -1U`); data that passed
+    the check is recorded even when a byte outside the slice was written on the way -/
+def accepted (fx : Fix) (specs : List Spec) (vals : List Val) (m0 : Mem) : Option (List Byte) :=
+  let st := packRun fx specs vals (St.init m0)
+  if st.total > maxSize fx then none else some st.payload
+
 /-- what record_ret_stack appends after the 16-byte header: the payload, advanced by ALIGN(size, 8) -/
 def padTo8 (n : Nat) : List Byte := List.replicate (align8 n - n) 0
 
